@@ -40,6 +40,11 @@ pub enum TOp {
     Remove { i: usize, idx: usize },
     Pop { i: usize },
     Retain { i: usize, mask: u64 },
+    /// `retain` whose predicate panics at its `at`-th call: the thread unwinds out of the middle of
+    /// an in-place edit (fault kind F9) while the other owners keep running
+    RetainPanic { i: usize, mask: u64, at: usize },
+    /// `extend` with chars from an iterator that panics at its `at`-th `next`
+    ExtendPanic { i: usize, chars: String, at: usize },
     Truncate { i: usize, len: usize },
     Clear { i: usize },
     Reserve { i: usize, n: usize, try_: bool },
@@ -63,6 +68,8 @@ impl TOp {
             TOp::Remove { .. } => "remove",
             TOp::Pop { .. } => "pop",
             TOp::Retain { .. } => "retain",
+            TOp::RetainPanic { .. } => "retain_panicking",
+            TOp::ExtendPanic { .. } => "extend_panicking",
             TOp::Truncate { .. } => "truncate",
             TOp::Clear { .. } => "clear",
             TOp::Reserve { .. } => "reserve",
@@ -206,7 +213,12 @@ impl ThreadGen<'_> {
             }
             33..=39 if !text.is_empty() => TOp::Remove { i, idx: boundary(self.rng, &text, false) },
             40..=43 => TOp::Pop { i },
-            44..=48 => TOp::Retain { i, mask: self.rng.next_u64() | 1 },
+            44..=46 => TOp::Retain { i, mask: self.rng.next_u64() | 1 },
+            47 => TOp::RetainPanic { i, mask: self.rng.next_u64() | 1, at: self.rng.below(text.chars().count() + 1) },
+            48 => {
+                let n = self.rng.range(1, 5);
+                TOp::ExtendPanic { i, chars: party_text(self.rng, p, n), at: self.rng.below(n + 1) }
+            }
             49..=55 => TOp::Truncate { i, len: boundary(self.rng, &text, true) },
             56..=58 => TOp::Clear { i },
             59..=64 => TOp::Reserve { i, n: *self.rng.pick(&[0usize, 1, 5, 30, 100]), try_ },
@@ -338,6 +350,8 @@ pub fn apply_model(models: &mut Vec<Option<String>>, op: &TOp, shared_text: &str
                 | TOp::Remove { i, .. }
                 | TOp::Pop { i }
                 | TOp::Retain { i, .. }
+                | TOp::RetainPanic { i, .. }
+                | TOp::ExtendPanic { i, .. }
                 | TOp::Truncate { i, .. }
                 | TOp::Clear { i } => *i,
                 _ => unreachable!(),
@@ -372,6 +386,29 @@ pub fn apply_model(models: &mut Vec<Option<String>>, op: &TOp, shared_text: &str
                         k += 1;
                         keep
                     })
+                }
+                TOp::RetainPanic { mask, at, .. } => {
+                    // what `String::retain` holds after the same panic: the kept prefix
+                    let (mask, at) = (*mask, *at);
+                    let mut k = 0;
+                    let _ = catch_unwind(AssertUnwindSafe(|| {
+                        m.retain(|_| {
+                            if k == at {
+                                std::panic::panic_any(super::ops::INJECTED_PANIC);
+                            }
+                            let keep = (mask >> (k % 64)) & 1 == 1;
+                            k += 1;
+                            keep
+                        })
+                    }));
+                }
+                TOp::ExtendPanic { chars, at, .. } => {
+                    for (k, c) in chars.chars().enumerate() {
+                        if k == *at {
+                            break;
+                        }
+                        m.push(c);
+                    }
                 }
                 TOp::Truncate { len, .. } => {
                     if *len <= m.len() && m.is_char_boundary(*len) {
@@ -505,6 +542,47 @@ fn real_op(p: &mut Party, op: &TOp) -> Result<(), &'static str> {
                 keep
             })
         }
+        TOp::RetainPanic { i, mask, at } => {
+            let (mask, at) = (*mask, *at);
+            let mut k = 0;
+            let t = tgt!(i);
+            let r = catch_unwind(AssertUnwindSafe(|| {
+                t.retain(|_| {
+                    if k == at {
+                        std::panic::panic_any(super::ops::INJECTED_PANIC);
+                    }
+                    let keep = (mask >> (k % 64)) & 1 == 1;
+                    k += 1;
+                    keep
+                })
+            }));
+            if let Err(p) = r {
+                if p.downcast_ref::<&'static str>() != Some(&super::ops::INJECTED_PANIC) {
+                    std::panic::resume_unwind(p);
+                }
+            }
+        }
+        TOp::ExtendPanic { i, chars, at } => {
+            let at = *at;
+            let cs: Vec<char> = chars.chars().collect();
+            let t = tgt!(i);
+            let mut k = 0;
+            let r = catch_unwind(AssertUnwindSafe(|| {
+                t.extend(std::iter::from_fn(|| {
+                    if k == at {
+                        std::panic::panic_any(super::ops::INJECTED_PANIC);
+                    }
+                    let c = cs.get(k).copied();
+                    k += 1;
+                    c
+                }))
+            }));
+            if let Err(p) = r {
+                if p.downcast_ref::<&'static str>() != Some(&super::ops::INJECTED_PANIC) {
+                    std::panic::resume_unwind(p);
+                }
+            }
+        }
         TOp::Truncate { i, len } => {
             let t = tgt!(i);
             if *len <= t.len() && idx_ok(t, *len) {
@@ -544,6 +622,8 @@ fn target_of(op: &TOp) -> Option<usize> {
         | TOp::Remove { i, .. }
         | TOp::Pop { i }
         | TOp::Retain { i, .. }
+        | TOp::RetainPanic { i, .. }
+        | TOp::ExtendPanic { i, .. }
         | TOp::Truncate { i, .. }
         | TOp::Clear { i }
         | TOp::Reserve { i, .. }
@@ -593,9 +673,21 @@ fn run_party(mut p: Party, ops: &[TOp]) -> Party {
             }
             // a failed operation leaves its target as it was
             if let (Some(i), Some(b)) = (target_of(op), before) {
-                if p.locals.get(i).and_then(|x| x.as_ref()).map(|t| t.as_bytes() == b.as_bytes()) != Some(true) {
+                let now = p.locals.get(i).and_then(|x| x.as_ref()).map(|t| t.as_bytes().to_vec());
+                let ok = match (op, &now) {
+                    // an iterator-driven operation may stop between two items
+                    (TOp::ExtendPanic { chars, .. }, Some(n)) => {
+                        n.starts_with(b.as_bytes()) && chars.as_bytes().starts_with(&n[b.len()..]) && std::str::from_utf8(n).is_ok()
+                    }
+                    (_, Some(n)) => n == b.as_bytes(),
+                    _ => false,
+                };
+                if !ok {
                     report(mk("failed_op_changed_target", format!("expected {b:?}")));
                     break;
+                }
+                if let (TOp::ExtendPanic { .. }, Some(n)) = (op, now) {
+                    p.models[i] = Some(String::from_utf8(n).unwrap());
                 }
             }
             continue;
